@@ -2,14 +2,52 @@ HOOK_COMMITS = []
 NOTE = ("Trusted: the reference models in /verif/vf/ref (self-tested against published vectors at start-up), "
         "Hypothesis' generators, CPython. Only the pure-Python backend (pecc/phash) is exercised; cecc.py is not executable here. "
         "Absence of violations is not established: evidence lists case counts, class histograms and which sub-checks were exhaustive.")
+
+
+def c(technique, text):
+    return {"technique": technique, "text": text, "note": NOTE}
+
+
+PBT = "property-based testing (Hypothesis, sharded over 16 processes)"
 CLAIMS = {
- "C01": {"technique": "property-based differential testing (Hypothesis) against an independent RFC 6979/SEC1 ECDSA reference; mutation catalogue incl. constructed R.x>=n class",
-         "text": "Generated (secret,digest) pairs and mutated (key,digest,r,s) tuples are compared with an independent ECDSA/RFC 6979/DER reference; low-S boundary window reached by steering the nonce. Exploration: thousands of cases per run, all mutation classes hit every run.",
-         "note": NOTE},
- "C02": {"technique": "property-based differential testing (Hypothesis) against an independent BIP340 reference; mutation catalogue over 64-byte signatures; call-history check of the tag cache",
-         "text": "Signatures for generated (secret,msg,aux) are compared byte-for-byte with an independent BIP340 implementation (all key/nonce parity classes every run); verification is compared with the reference verifier over a mutation catalogue (bit flips, range violations, non-curve R/pk, negated nonce). Exploration.",
-         "note": NOTE},
- "C03": {"technique": "exhaustive enumeration of small prime fields/curves + property-based differential testing against an independent Jacobian secp256k1 implementation and SEC1/BIP340 decoders",
-         "text": "Field and group axioms are checked EXHAUSTIVELY for every prime 5..61 (all pairs, all triples for p<=31, incl. order-2 points and infinity); secp256k1 operations and algebraic laws are compared with an independent implementation on generated scalars incl. 0, n, negatives, >2^256; encodings are decided by an independent decoder over a catalogue of invalid candidates.",
-         "note": NOTE},
+ "C01": c(PBT + ": differential against an independent RFC 6979/SEC1 ECDSA reference; mutation catalogue incl. constructed R.x>=n class",
+          "Generated (secret,digest) pairs and mutated (key,digest,r,s) tuples are compared with an independent ECDSA/RFC 6979/DER reference; low-S boundary window reached by steering the nonce. Exploration: thousands of cases per run, all mutation classes hit every run."),
+ "C02": c(PBT + ": differential against an independent BIP340 reference; mutation catalogue over 64-byte signatures; call-history check of the tag cache",
+          "Signatures for generated (secret,msg,aux) are compared byte-for-byte with an independent BIP340 implementation (all key/nonce parity classes every run); verification is compared with the reference verifier over a mutation catalogue (bit flips, range violations, non-curve R/pk, negated nonce). Exploration."),
+ "C03": c("exhaustive enumeration of small prime fields/curves + " + PBT + " differential against an independent Jacobian secp256k1 implementation and SEC1/BIP340 decoders",
+          "Field and group axioms are checked EXHAUSTIVELY for every prime 5..61 (all pairs, all triples for p<=31, incl. order-2 points and infinity); secp256k1 operations and algebraic laws are compared with an independent implementation on generated scalars incl. 0, n, negatives, >2^256; encodings are decided by an independent decoder over a catalogue of invalid candidates."),
+ "C04": c(PBT + ": round-trip and differential against an independent wire-format serialiser; metamorphic txid relation; stubbed-server response catalogue for the fetcher",
+          "Structured transactions covering every push-length class 0..520, varint widths and witness item sizes to 70000 bytes are serialised by an independent reference; parse/serialise must be byte-identical in both directions and the txid must be the stripped double-SHA256; witness-only changes keep the id, any non-witness change alters it; the fetcher (server stubbed) must raise or return a Tx hashing to the requested id for 14 response classes incl. non-canonical encodings and cache histories."),
+ "C05": c(PBT + ": differential against independent legacy/BIP143/BIP341 digest implementations; generated edit/query histories on one Tx object (stateful)",
+          "Every (algorithm, hash type) pair incl. SINGLE-out-of-range and annex is compared with reference digests written from Bitcoin Core / BIP143 / BIP341; histories interleave digest queries with edits of outputs, inputs, sequences, locktime, version and annex and require the digest of the current fields after every step."),
+ "C06": c(PBT + ": spends built and signed through the library must verify; typed mutation catalogue + signature-free grammar must never verify; reference sighash/ECDSA/BIP340 recount valid signatures",
+          "For 9 output types the library-signed spend must verify; every catalogue mutation that removes authorisation (recounted with the reference models) and every generated signature-free scriptSig/witness must yield false or an error."),
+ "C07": c(PBT + ": differential against a reference interpreter written from Bitcoin Core's EvalScript (consensus flags); exhaustive number-codec sweep",
+          "Single opcodes on generated stacks, grammar-generated programs up to 40 operations with nested conditionals and a transaction context, the script-number codec (exhaustive over all 0..2-byte strings quick / 0..3-byte thorough) and CLTV/CSV boundaries are compared with a reference interpreter."),
+ "C08": c(PBT + ": differential against an independent BIP32 implementation; path-notation and composition metamorphic relations; exhaustive single-character substitution on sampled xkeys",
+          "Every node of generated derivation paths (depth<=8, index edges) is compared with an independent BIP32 model (secret, point, chain code, depth, child number, fingerprint, xprv/xpub for all 20 SLIP-132 versions); public/private consistency, hardened refusal, path composition/notation and xpub blinding are checked."),
+ "C09": c(PBT + ": differential against independent Base58Check/BIP173/BIP350 references; exhaustive single (and sampled/all-pairs double) substitutions on sampled addresses",
+          "Encoders and decoders are compared with independent references for all witness versions x program lengths x networks; Base58Check acceptance iff checksum matches over mutated strings; every single substitution at every data position of sampled segwit addresses must be rejected by all three decoding entry points."),
+ "C10": c(PBT + " over generated signing/combining histories (two independent orders per case) with the reference sighash/ECDSA recount as oracle; byte-level PSBT editor for injection",
+          "PSBT serialise/parse fixpoint at every workflow stage incl. unknown pairs and global xpubs; two independent sign/combine histories must give byte-identical PSBTs and final transactions; finalisation succeeds iff |signers| >= m; corrupted partial signatures must be rejected on load."),
+ "C11": c(PBT + ": honest multisig PSBTs plus a tampering catalogue, ground truth from independent BIP32/script models",
+          "describe_basic_p2sh/p2wsh multisig summaries must satisfy the accounting identities and label change only when the reference derivation confirms it; every tampering of inputs must raise."),
+ "C12": c(PBT + ": differential against an independent BIP341 model; exhaustive byte positions of control blocks for tampering",
+          "Merkle root, tweak, output key/parity, tweaked secret and control blocks for generated trees (1..8 leaves, both key parities) equal the reference; sibling order does not matter; every byte position of the control block and leaf script is altered and must not reproduce key and parity."),
+ "C13": c(PBT + ": MuSig protocol runs verified by an independent BIP340 verifier; exhaustive (k,n)<=5 subset/leaf bijection",
+          "Aggregated signatures over generated key sets/nonces/messages verify under the reference verifier for plain and tweaked keys; omission/alteration of a partial never verifies; every k-subset owns exactly one leaf and its spend verifies."),
+ "C14": c(PBT + ": differential against an independent BIP39 model and hashlib.pbkdf2_hmac; exhaustive word-list prefix table",
+          "Entropy<->mnemonic for all five sizes, acceptance iff length valid and checksum matches (incl. 4-letter prefixes), seed/master key vs hashlib PBKDF2 + reference BIP32, vendored PBKDF2 vs hashlib over chunked reads."),
+ "C15": c(PBT + ": all 136 (k,n) pairs with harness-owned randomness, independent SLIP39 model (RS1024, GF(256), Feistel); exhaustive GF(256) tables",
+          "Any >=k shares recover, <k never do, mixing splits fails, share codec equals the reference packer, 1..3-word corruptions are rejected, encrypt/decrypt are inverse and equal the reference, GF(256) tables and interpolation identities hold exhaustively."),
+ "C16": c(PBT + ": differential against Bitcoin Core's descriptor checksum and independent BIP32/P2WSH models; exhaustive single-character substitutions on sampled descriptors",
+          "Descriptor text/checksum/round-trip, permutation invariance, address derivation for receive/change branches vs reference, and detection of every single-character substitution."),
+ "C17": c("exhaustive enumeration of all partial Merkle trees with 1..10 leaves x all match sets + " + PBT + " for roots, tampering, headers, compact bits and retargeting against references",
+          "All 2046 (n<=10, subset) proofs built by a reference CPartialMerkleTree builder validate and yield exactly the matched ids; tampered proofs that validate may only yield block ids; header/bits/retarget functions equal reference formulas."),
+ "C18": c(PBT + ": differential against independent SipHash-2-4, MurmurHash3, Golomb-Rice/BIP158 and BIP37 models incl. a constructed equal-hash class",
+          "Hash functions for every message length 0..70, Golomb coding, GCS construction/decoding/membership (incl. colliding elements), filter header chaining and bloom bit positions equal the references; no inserted element is ever reported absent."),
+ "C19": c(PBT + ": round-trip and differential against struct-built reference layouts; corruption catalogue for envelopes",
+          "Envelope round-trip and rejection of wrong magic/checksum/short payload; varint/varstr/fixed-width codecs across all width boundaries; each fixed-layout message equals the reference bytes in both directions."),
+ "C20": c(PBT + ": round-trip for all CBOR/bc32 length classes and BCUR chunkings; rejection catalogue (permutation, omission, foreign part, substituted character)",
+          "BCUR single/multi-part encodings reassemble exactly for payloads to 70000 bytes and chunk sizes 1..2000; out-of-order, missing, foreign or corrupted parts are rejected and never yield different data."),
 }
